@@ -287,7 +287,7 @@ func (p *progGen) node(b *strings.Builder, depth int) {
 		}
 	case "poly":
 		// the same path resolves through a method, a map key or a struct field depending on the context
-		fmt.Fprintf(b, "{{ %s }}", p.pick([]string{"poly.Name", "poly.Title", "poly.Name|upper", "poly.Kids.0", "poly.Nick", "poly2.Name", "poly2.Title", "poly2.Name|lower"}))
+		fmt.Fprintf(b, "{{ %s }}", p.pick([]string{"poly.Name", "poly.Title", "poly.Name|upper", "poly.Kids.0", "poly.Nick", "poly2.Name", "poly2.Title", "poly2.Name|lower", "anon.Name", "anon.City", "loc.Name", "loc.City"}))
 	case "lazyvar":
 		// the file a lazy include names depends on the context
 		p.use("include")
@@ -398,7 +398,10 @@ func (p *progGen) node(b *strings.Builder, depth int) {
 	case "macro":
 		p.use("macro")
 		m := p.id("m")
-		fmt.Fprintf(b, `{%% macro %s(a, b="dflt") %%}<{{ a }}|{{ b }}`, m)
+		// the default is a literal, a name read from the context, or a literal whose filter
+		// parameter is read from the context (what it yields differs between executions)
+		dflt := p.pick([]string{`"dflt"`, `"dflt"`, `"d-"|add:s1`, `s2`, `"n"|add:st.Name|upper`})
+		fmt.Fprintf(b, `{%% macro %s(a, b=%s) %%}<{{ a }}|{{ b }}`, m, dflt)
 		was := p.inMacro
 		p.inMacro = true
 		savedLocals, savedLoops := p.locals, p.loopVars
@@ -816,6 +819,19 @@ func (p polyMethodsC) Name() string  { return "C-method:" + p.n }
 func (p polyMethodsC) Title() string { return "C-title of " + p.n }
 func (p polyMethodsC) Zeta() string  { return "zeta" }
 
+func localRecA() any {
+	type rec struct{ Name, City string }
+	return rec{"la-N", "la-C<"}
+}
+
+func localRecB() any {
+	type rec struct {
+		City string
+		Name string
+	}
+	return &rec{"lb-C", "lb-N"}
+}
+
 type polyFields struct {
 	Name string
 	Nick string
@@ -872,21 +888,28 @@ func (w *World) BuildCtx(d CtxDesc) pongo2.Context {
 	next := &simUser{Name: []string{"Nx", "Ny<", "Nz"}[v], Age: 1, w: w}
 	st := &simUser{Name: []string{"Ann", "B&b", "Çé"}[v], Age: []int{30, 0, 7}[v], Tags: [][]string{{"t1", "t2", "t2"}, {}, {"z", "a"}}[v], Next: next, w: w}
 	ctx := pongo2.Context{
-		"s1":        []string{"hello <b>&", "wörld", ""}[v],
-		"s2":        []string{"abc", "x\xffy z\xc3", "<i>"}[v], // variant 1 is not valid UTF-8
-		"n1":        []int{3, 0, 7}[v],
-		"n2":        []any{5, 2, -1.5}[v],
-		"z":         0,
-		"f1":        []float64{1.5, 2.0, 0.25}[v],
-		"b1":        []bool{true, false, true}[v],
-		"nl":        nil,
-		"lst":       []any{[]int{3, 1, 2}, []int{}, []string{"5x", "5"}}[v], // (not in sorted order: an engine that sorts in place shows)
-		"strs":      [][]string{{"b", "c", "a"}, {"x"}, {"q", "a"}}[v],
-		"mp":        []any{map[string]any{"k1": "v1", "k2": 2}, map[string]string{"k1": "<v>"}, map[string]any{"k1": "", "k3": 3.5, "k0": "z"}}[v],
-		"st":        st,
-		"strg":      simStringer{[]string{"x", "<y>", ""}[v]},
-		"poly2":     []any{&polyMethods{"P2"}, &polyMethodsB{"PB<"}, polyMethodsC{"PC"}}[v],
-		"poly":      []any{&polyMethods{"PM"}, map[string]any{"Name": "mapname<", "Title": "maptitle", "Kids": []string{"k1"}}, polyFields{Name: "fieldname", Nick: "nick&", Kids: []int{7, 8}}}[v],
+		"s1":    []string{"hello <b>&", "wörld", ""}[v],
+		"s2":    []string{"abc", "x\xffy z\xc3", "<i>"}[v], // variant 1 is not valid UTF-8
+		"n1":    []int{3, 0, 7}[v],
+		"n2":    []any{5, 2, -1.5}[v],
+		"z":     0,
+		"f1":    []float64{1.5, 2.0, 0.25}[v],
+		"b1":    []bool{true, false, true}[v],
+		"nl":    nil,
+		"lst":   []any{[]int{3, 1, 2}, []int{}, []string{"5x", "5"}}[v], // (not in sorted order: an engine that sorts in place shows)
+		"strs":  [][]string{{"b", "c", "a"}, {"x"}, {"q", "a"}}[v],
+		"mp":    []any{map[string]any{"k1": "v1", "k2": 2}, map[string]string{"k1": "<v>"}, map[string]any{"k1": "", "k3": 3.5, "k0": "z"}}[v],
+		"st":    st,
+		"strg":  simStringer{[]string{"x", "<y>", ""}[v]},
+		"poly2": []any{&polyMethods{"P2"}, &polyMethodsB{"PB<"}, polyMethodsC{"PC"}}[v],
+		"poly":  []any{&polyMethods{"PM"}, map[string]any{"Name": "mapname<", "Title": "maptitle", "Kids": []string{"k1"}}, polyFields{Name: "fieldname", Nick: "nick&", Kids: []int{7, 8}}}[v],
+		// struct types without a name, and equally named types declared in different functions:
+		// same field names, different layouts
+		"anon": []any{struct{ Name, City string }{"an-N<", "an-C"}, struct{ City, Name string }{"bn-C", "bn-N&"}, struct {
+			Zip        int
+			Name, City string
+		}{7, "cn-N", "cn-C"}}[v],
+		"loc":       []any{localRecA(), localRecB(), localRecA()}[v],
 		"lzv":       []string{"inc0.tpl", "inc1.tpl", "inc0.tpl"}[v],
 		"bigs":      bigStrings[v],
 		"huge":      hugeString,
